@@ -56,7 +56,7 @@ def PoolOK (h : H) : Prop := h.bufPool.Nodup ∧ ∀ x ∈ h.bufPool, x < h.next
 
 /-- everything except the buffers (`mem`, `next`, `bufPool`), `tick` and `fault` -/
 def SameRest (h h' : H) : Prop :=
-  h'.jsonPool = h.jsonPool ∧ h'.slicePool = h.slicePool ∧ h'.cePool = h.cePool ∧ h'.errPoolCore = h.errPoolCore ∧
+  h'.jsonPool = h.jsonPool ∧ h'.slicePool = h.slicePool ∧ h'.ceh = h.ceh ∧ h'.errPoolCore = h.errPoolCore ∧
   h'.errPoolZap = h.errPoolZap ∧ h'.stackPool = h.stackPool ∧ h'.inflight = h.inflight ∧ h'.live = h.live ∧ h'.out = h.out
 
 theorem SameRest.rfl' (h : H) : SameRest h h := ⟨rfl, rfl, rfl, rfl, rfl, rfl, rfl, rfl, rfl⟩
